@@ -7,7 +7,7 @@ def register(reg):
     reg.spec("hkey(self, i)", "self._list[i][0].lower()")
     reg.spec("has_key(self, key)", "exists(0, len(self._list), lambda i: hkey(self, i) == key.lower())")
     reg.contract(
-        "werkzeug/datastructures/headers.py:Headers._get_key", prop=P, self_model=H, params={"key": "str"}, returns="str",
+        "werkzeug/datastructures/headers.py:Headers._get_key", prop=P, self_model=H, replay="method", params={"key": "str"}, returns="str",
         ensures=[
             # the value of the FIRST pair whose key equals `key` case-insensitively
             "exists(0, len(self._list), lambda i: hkey(self, i) == key.lower() and result == self._list[i][1] and "
@@ -26,7 +26,7 @@ def register(reg):
         ensures=["result == len(self._list)"],
     )
     reg.contract(
-        "werkzeug/datastructures/headers.py:Headers._del_key", prop=P, self_model=H, params={"key": "str"},
+        "werkzeug/datastructures/headers.py:Headers._del_key", prop=P, self_model=H, replay="method", params={"key": "str"},
         ensures=[
             # every pair with that key (any letter case) is gone, the others keep their relative order
             "not has_key(self, key)",
